@@ -487,14 +487,16 @@ func c03BigPreload(ctx *rt.Ctx) *rt.Violation {
 // c03Prefix: leaves whose column+value concatenations coincide ("a"+"bc" == "ab"+"c", "a"+"b" == "ab"+"") must never
 // share a cache entry: every ordered pair of such leaves (plain, negated, and inside AND/OR) on a cached index.
 func c03Prefix(ctx *rt.Ctx) *rt.Violation {
-	rows := []model.Row{{"a": "b"}, {"a": "bc", "ab": "c"}, {"ab": ""}, {"a": "b", "ab": "c"}, {"ab": "c"}, {"a": "bc"}, {}}
+	rows := []model.Row{{"a": "b"}, {"a": "bc", "ab": "c"}, {"ab": ""}, {"a": "b", "ab": "c"}, {"ab": "c"}, {"a": "bc"}, {}, {"a": "b\x00c"}}
 	p, _, err := ix.Build(ctx.Scratch, rows, ix.MemFile)
 	if err != nil {
 		rt.Harnessf("build: %v", err)
 	}
 	defer removeFile(p)
 	d := model.FromRows(rows)
-	lv := []*model.Expr{model.Eq("a", "b"), model.Eq("ab", ""), model.Eq("a", "bc"), model.Eq("ab", "c")}
+	// the last two: a value containing NUL, and a column that occurs in NO row whose name+NUL+value spells the same bytes
+	// (must stay an error whatever was cached before)
+	lv := []*model.Expr{model.Eq("a", "b"), model.Eq("ab", ""), model.Eq("a", "bc"), model.Eq("ab", "c"), model.Eq("a", "b\x00c"), model.Eq("a\x00b", "c")}
 	var qs []*model.Expr
 	for _, l := range lv {
 		qs = append(qs, l, model.Not(l), model.And(l, lv[0]), model.Or(l, lv[3]))
